@@ -4,7 +4,7 @@
    NLambda / NPartial / NCall / NApply cases of eval and the CLambda / CPartial / CChain cases of
    call) against the declarative definitions of Spec/C12.v. *)
 From Coq Require Import Lia.
-From JV Require Import Model.Value Model.Eval Proofs.MonadFacts Spec.C12.
+From JV Require Import Model.Value Model.Eval Proofs.MonadFacts Proofs.C14Proofs Spec.C12.
 Local Open Scope nat_scope.
 Local Open Scope list_scope.
 
@@ -72,3 +72,1261 @@ Proof.
   destruct s as [[|sp r]|]; try reflexivity.
   apply forallb_ext_In. intros x _. apply IH. cbn in D. lia.
 Qed.
+(** ** optional padding *)
+Lemma padded_iff params : forall l r, padded params l r <-> r = pad_lambda_optionals params l.
+Proof.
+  induction params as [|p ps IH]; intros l r; split.
+  - intro H. inversion H; subst. now destruct r.
+  - intros ->. destruct l; constructor.
+  - intro H. inversion H as [|? ? ? ? ? HP|? ? ? HO HP|? ? HO]; subst; simpl.
+    + f_equal. now apply IH.
+    + rewrite HO. f_equal. now apply IH.
+    + now rewrite HO.
+  - intros ->. destruct l as [|a l]; simpl.
+    + destruct (is_optional p) eqn:E; [apply padded_opt|apply padded_stop]; auto. now apply IH.
+    + constructor. now apply IH.
+Qed.
+
+Lemma padded_fun params l r1 r2 : padded params l r1 -> padded params l r2 -> r1 = r2.
+Proof. intros H1 H2. apply padded_iff in H1, H2. congruence. Qed.
+
+(** ** the argument-count test *)
+Lemma last_variadic_eq params :
+  last_variadic params = match rev params with p :: _ => is_variadic p | [] => false end.
+Proof. reflexivity. Qed.
+
+Lemma count_test_spec params n :
+  (n <? List.length params) || ((List.length params <? n) && negb (last_variadic params)) = false
+  <-> count_fits params n.
+Proof.
+  unfold count_fits. rewrite orb_false_iff, andb_false_iff, negb_false_iff, !Nat.ltb_ge. tauto.
+Qed.
+
+(** ** the type-checking loop *)
+Section ChkArgs.
+  Variables (vfuel : nat) (params : list param) (fname : string).
+  Fixpoint chk_args (l : list ovalue) (i : nat) : pure_res (list ovalue) :=
+    match l with
+    | [] => inl []
+    | None :: r => match chk_args r (S i) with inl t => inl (None :: t) | inr e => inr e end
+    | Some a :: r =>
+        let p := nth i params (last params (Param 0 OptNone None)) in
+        let a' := if N.eqb (param_typ p) PT_array then VArr (arrayify (Some a)) else a in
+        if (match params with [] => false | _ => valid_arg_type vfuel a' p end)
+        then match chk_args r (S i) with inl t => inl (Some a' :: t) | inr e => inr e end
+        else inr (EArgType fname (S i))
+    end.
+End ChkArgs.
+
+Lemma lambda_args_unfold vfuel params lctx fname argv :
+  lambda_args vfuel params lctx fname argv =
+  let args := pad_lambda_optionals params (subst_ctx params lctx argv) in
+  if (List.length args <? List.length params) ||
+     ((List.length params <? List.length args) && negb (last_variadic params))
+  then inr (EArgCount fname)
+  else match chk_args vfuel params fname args 0 with
+       | inr e => inr e
+       | inl checked => inl (collect params checked)
+       end.
+Proof.
+  unfold lambda_args. cbv zeta. fold (first_contextable params). fold (subst_ctx params lctx argv).
+  fold (last_variadic params).
+  destruct (_ || _); [reflexivity|].
+  change ((fix chk (l : list ovalue) (i : nat) {struct l} : pure_res (list ovalue) := _) ?a 0)
+    with (chk_args vfuel params fname a 0).
+  destruct (chk_args vfuel params fname _ 0) as [t|e]; [|reflexivity].
+  unfold collect. destruct (last_variadic params); reflexivity.
+Qed.
+
+Lemma last_In {A} (l : list A) d : l <> [] -> In (last l d) l.
+Proof.
+  induction l as [|a r IH]; intro N; [contradiction|].
+  destruct r as [|b r]; [now left|]. right. apply IH. discriminate.
+Qed.
+
+Lemma arg_param_In params i : params <> [] -> In (arg_param params i) params.
+Proof.
+  intro N. unfold arg_param. destruct (Nat.lt_ge_cases i (List.length params)) as [L|L].
+  - now apply nth_In.
+  - rewrite nth_overflow by assumption. now apply last_In.
+Qed.
+
+Lemma has_type_dflt v : has_type dflt_param v = false.
+Proof. destruct v; reflexivity. Qed.
+
+Definition fuel_ok (vfuel : nat) (params : list param) : Prop :=
+  forall p, In p params -> param_depth p < vfuel.
+
+Lemma check_eq vfuel params i a' :
+  fuel_ok vfuel params ->
+  (match params with [] => false | _ => valid_arg_type vfuel a' (arg_param params i) end) =
+  has_type (arg_param params i) a'.
+Proof.
+  intro F. destruct params as [|p ps] eqn:E.
+  - unfold arg_param. replace (nth i [] (last [] dflt_param)) with dflt_param by (destruct i; reflexivity).
+    now rewrite has_type_dflt.
+  - rewrite <- E in *. apply valid_arg_type_spec. apply F. apply arg_param_In. congruence.
+Qed.
+
+Lemma chk_args_some vfuel params fname a r i :
+  chk_args vfuel params fname (Some a :: r) i =
+  if (match params with [] => false | _ => valid_arg_type vfuel (coerce (arg_param params i) a) (arg_param params i) end)
+  then match chk_args vfuel params fname r (S i) with
+       | inl t => inl (Some (coerce (arg_param params i) a) :: t)
+       | inr e => inr e
+       end
+  else inr (EArgType fname (S i)).
+Proof. reflexivity. Qed.
+
+Lemma chk_args_none vfuel params fname r i :
+  chk_args vfuel params fname (None :: r) i =
+  match chk_args vfuel params fname r (S i) with inl t => inl (None :: t) | inr e => inr e end.
+Proof. reflexivity. Qed.
+
+(** complete description of the loop: either all defined arguments are well typed and the result
+    is the coerced list, or the error names the first ill-typed one (1-based) *)
+Lemma chk_args_post vfuel params fname : fuel_ok vfuel params -> forall l i,
+  match chk_args vfuel params fname l i with
+  | inl t => typed_from params i l t
+  | inr e =>
+      exists j, e = EArgType fname (S (i + j)) /\
+        (exists a, nth_error l j = Some (Some a) /\
+                   has_type (arg_param params (i + j)) (coerce (arg_param params (i + j)) a) = false) /\
+        forall j' a', j' < j -> nth_error l j' = Some (Some a') ->
+                      has_type (arg_param params (i + j')) (coerce (arg_param params (i + j')) a') = true
+  end.
+Proof.
+  intro F. induction l as [|[a|] r IH]; intro i.
+  - constructor.
+  - rewrite chk_args_some, (check_eq vfuel params i _ F).
+    destruct (has_type (arg_param params i) (coerce (arg_param params i) a)) eqn:Ht.
+    + specialize (IH (S i)). destruct (chk_args vfuel params fname r (S i)) as [t|e]; cbv beta iota.
+      * now constructor.
+      * destruct IH as (j & -> & (b & Hn & Hb) & Hlt). exists (S j).
+        replace (i + S j) with (S i + j) by lia. split; [reflexivity|]. split; [eauto|].
+        intros [|j'] a' L Hn'; simpl in Hn'.
+        -- inversion Hn'; subst a'. now rewrite Nat.add_0_r.
+        -- replace (i + S j') with (S i + j') by lia. apply Hlt; [lia|assumption].
+    + cbv beta iota. exists 0. rewrite Nat.add_0_r. split; [reflexivity|]. split; [exists a; auto|]. intros; lia.
+  - rewrite chk_args_none.
+    specialize (IH (S i)). destruct (chk_args vfuel params fname r (S i)) as [t|e]; cbv beta iota.
+    + now constructor.
+    + destruct IH as (j & -> & (b & Hn & Hb) & Hlt). exists (S j).
+      replace (i + S j) with (S i + j) by lia. split; [reflexivity|]. split; [eauto|].
+      intros [|j'] a' L Hn'; simpl in Hn'; [discriminate|].
+      replace (i + S j') with (S i + j') by lia. apply Hlt; [lia|assumption].
+Qed.
+
+Lemma typed_from_fun params i l t1 : typed_from params i l t1 -> forall t2, typed_from params i l t2 -> t1 = t2.
+Proof.
+  induction 1; intros t2 H2; inversion H2; subst; try reflexivity; f_equal; auto.
+Qed.
+
+Lemma typed_from_well params i l t : typed_from params i l t ->
+  forall j a, nth_error l j = Some (Some a) ->
+              has_type (arg_param params (i + j)) (coerce (arg_param params (i + j)) a) = true.
+Proof.
+  induction 1; intros j b Hn.
+  - destruct j; discriminate.
+  - destruct j; simpl in Hn; [discriminate|]. replace (i + S j) with (S i + j) by lia. eauto.
+  - destruct j; simpl in Hn.
+    + inversion Hn; subst. now rewrite Nat.add_0_r.
+    + replace (i + S j) with (S i + j) by lia. eauto.
+Qed.
+
+Lemma ill_typed_at_fun params l j1 j2 : ill_typed_at params l j1 -> ill_typed_at params l j2 -> j1 = j2.
+Proof.
+  intros [(a1 & N1 & B1) L1] [(a2 & N2 & B2) L2].
+  destruct (Nat.lt_trichotomy j1 j2) as [H|[H|H]]; [|assumption|].
+  - rewrite (L2 _ _ H N1) in B1. discriminate.
+  - rewrite (L1 _ _ H N2) in B2. discriminate.
+Qed.
+
+(** *** C12_signature *)
+Section Signature.
+  Variables (vfuel : nat) (params : list param) (ctx : ovalue) (name : string) (argv : list ovalue).
+  Hypothesis Hfuel : fuel_ok vfuel params.
+
+  Let args := pad_lambda_optionals params (subst_ctx params ctx argv).
+
+  Lemma padded_args : padded params (subst_ctx params ctx argv) args.
+  Proof. now apply padded_iff. Qed.
+
+  (** a call fits its signature exactly when validation succeeds, and then the body sees [out] *)
+  Theorem C12_signature out :
+    lambda_args vfuel params ctx name argv = inl out <-> fits params ctx argv out.
+  Proof.
+    rewrite lambda_args_unfold. cbv zeta. fold args.
+    pose proof (count_test_spec params (List.length args)) as CT.
+    pose proof (chk_args_post vfuel params name Hfuel args 0) as CK.
+    split.
+    - destruct (_ || _); [discriminate|].
+      destruct (chk_args vfuel params name args 0) as [t|e]; [|discriminate].
+      intro H. inversion H; subst out. exists args, t.
+      split; [apply padded_args|]. split; [now apply CT|]. split; [assumption|reflexivity].
+    - intros (args' & checked & HP & HC & HT & ->).
+      rewrite (padded_fun _ _ _ _ HP padded_args) in *.
+      apply CT in HC. rewrite HC.
+      destruct (chk_args vfuel params name args 0) as [t|e].
+      + now rewrite (typed_from_fun _ _ _ _ CK _ HT).
+      + exfalso. destruct CK as (j & _ & (a & Hn & Hb) & _).
+        pose proof (typed_from_well _ _ _ _ HT j a Hn) as W. congruence.
+  Qed.
+
+  (** ArgCount exactly when the padded argument count does not fit *)
+  Theorem C12_signature_count fn :
+    lambda_args vfuel params ctx name argv = inr (EArgCount fn) <-> fn = name /\ count_misfit params ctx argv.
+  Proof.
+    rewrite lambda_args_unfold. cbv zeta. fold args.
+    pose proof (count_test_spec params (List.length args)) as CT.
+    pose proof (chk_args_post vfuel params name Hfuel args 0) as CK.
+    split.
+    - destruct (_ || _) eqn:E.
+      + intro H. inversion H. split; [reflexivity|]. exists args. split; [apply padded_args|].
+        intro C. apply CT in C. congruence.
+      + destruct (chk_args vfuel params name args 0) as [t|e]; [discriminate|].
+        destruct CK as (j & -> & _). discriminate.
+    - intros [-> (args' & HP & HC)]. rewrite (padded_fun _ _ _ _ HP padded_args) in *.
+      destruct (_ || _) eqn:E; [reflexivity|]. exfalso. apply HC, CT. reflexivity.
+  Qed.
+
+  (** ArgType i exactly when the count fits and i is the 1-based position of the first defined
+      argument that does not have the type of its parameter *)
+  Theorem C12_signature_type fn i :
+    lambda_args vfuel params ctx name argv = inr (EArgType fn i) <-> fn = name /\ type_misfit params ctx argv i.
+  Proof.
+    rewrite lambda_args_unfold. cbv zeta. fold args.
+    pose proof (count_test_spec params (List.length args)) as CT.
+    pose proof (chk_args_post vfuel params name Hfuel args 0) as CK.
+    split.
+    - destruct (_ || _) eqn:E; [discriminate|].
+      destruct (chk_args vfuel params name args 0) as [t|e]; [discriminate|].
+      destruct CK as (j & -> & Hbad & Hlt). intro H. inversion H; subst fn i.
+      split; [reflexivity|]. exists args, j. split; [apply padded_args|]. split; [now apply CT|].
+      split; [|reflexivity]. split; assumption.
+    - intros [-> (args' & j & HP & HC & HI & ->)]. rewrite (padded_fun _ _ _ _ HP padded_args) in *.
+      apply CT in HC. rewrite HC.
+      destruct (chk_args vfuel params name args 0) as [t|e].
+      + exfalso. destruct HI as [(a & Hn & Hb) _].
+        pose proof (typed_from_well _ _ _ _ CK j a Hn) as W. simpl in W. congruence.
+      + destruct CK as (j2 & -> & Hbad & Hlt). simpl in *.
+        assert (j2 = j) by (eapply ill_typed_at_fun; [split; eassumption|exact HI]). now subst.
+  Qed.
+
+  (** there is no other outcome *)
+  Theorem C12_signature_total :
+    (exists out, lambda_args vfuel params ctx name argv = inl out) \/
+    lambda_args vfuel params ctx name argv = inr (EArgCount name) \/
+    (exists i, lambda_args vfuel params ctx name argv = inr (EArgType name i)).
+  Proof.
+    rewrite lambda_args_unfold. cbv zeta. fold args.
+    pose proof (chk_args_post vfuel params name Hfuel args 0) as CK.
+    destruct (_ || _); [auto|].
+    destruct (chk_args vfuel params name args 0) as [t|e]; [eauto|].
+    destruct CK as (j & -> & _). eauto.
+  Qed.
+End Signature.
+
+Print Assumptions valid_arg_type_spec.
+Print Assumptions C12_signature.
+Print Assumptions C12_signature_count.
+Print Assumptions C12_signature_type.
+Print Assumptions C12_signature_total.
+(* ================================================================================== *)
+(** * 2. Partial application: [partial_args] *)
+
+(** the loop body of partialCallable.Call *)
+Definition pa_step (evn : node -> M ovalue) (st : list ovalue * list ovalue) (a : node)
+  : M (list ovalue * list ovalue) :=
+  let '(acc, rest) := st in
+  if is_placeholder a then
+    match rest with
+    | v :: r => ret (acc ++ [v], r)
+    | [] => ret (acc ++ [None], [])
+    end
+  else v <- evn a ;; ret (acc ++ [v], rest).
+
+Lemma bind_unfold {A B} (m : M A) (f : A -> M B) w :
+  bind m f w = match m w with
+               | Ok a w' => f a w' | Err e => Err e | Panic s => Panic s
+               | OutOfFuel => OutOfFuel | Need q => Need q end.
+Proof. reflexivity. Qed.
+
+Lemma partial_args_unfold evn pargs argv w :
+  partial_args evn pargs argv w =
+  match foldM (pa_step evn) ([], argv) pargs w with
+  | Ok st w' => Ok (fst st) w'
+  | Err e => Err e
+  | Panic s => Panic s
+  | OutOfFuel => OutOfFuel
+  | Need q => Need q
+  end.
+Proof.
+  unfold partial_args. rewrite bind_unfold.
+  change (foldM _ ([], argv) pargs w) with (foldM (pa_step evn) ([], argv) pargs w).
+  destruct (foldM (pa_step evn) ([], argv) pargs w) as [[a b] w'|e|s| |q]; reflexivity.
+Qed.
+
+(** the fixed (non-placeholder) arguments of a partial application *)
+Definition fixed_args (pargs : list node) : list node := filter (fun a => negb (is_placeholder a)) pargs.
+
+(** placeholders filled from [argv], fixed arguments taken from [vs], both left to right *)
+Fixpoint fill_with (pargs : list node) (argv vs : list ovalue) : list ovalue :=
+  match pargs with
+  | [] => []
+  | a :: r =>
+      if is_placeholder a then
+        match argv with
+        | v :: vr => v :: fill_with r vr vs
+        | [] => None :: fill_with r [] vs
+        end
+      else match vs with
+           | v :: vr => v :: fill_with r argv vr
+           | [] => []
+           end
+  end.
+
+Lemma fill_with_fill ev pargs : forall argv,
+  fill_with pargs argv (map ev (fixed_args pargs)) = fill ev pargs argv.
+Proof.
+  induction pargs as [|a r IH]; intro argv; simpl; [reflexivity|].
+  unfold fixed_args in *. simpl. destruct (is_placeholder a); simpl.
+  - destruct argv; now rewrite IH.
+  - now rewrite IH.
+Qed.
+
+Lemma fill_length ev pargs : forall argv, List.length (fill ev pargs argv) = List.length pargs.
+Proof.
+  induction pargs as [|a r IH]; intro argv; simpl; [reflexivity|].
+  destruct (is_placeholder a); [destruct argv|]; simpl; now rewrite IH.
+Qed.
+
+Lemma foldM_pa_step evn pargs : forall acc rest w st w',
+  foldM (pa_step evn) (acc, rest) pargs w = Ok st w' ->
+  exists vs, steps evn (fixed_args pargs) w vs w' /\ fst st = acc ++ fill_with pargs rest vs.
+Proof.
+  induction pargs as [|a r IH]; intros acc rest w st w' H.
+  - apply ret_ok in H as [<- <-]. exists []. split; [constructor|]. simpl. now rewrite app_nil_r.
+  - rewrite foldM_cons in H. apply bind_ok in H as (st1 & w1 & H1 & H2).
+    unfold pa_step in H1. unfold fixed_args. simpl. destruct (is_placeholder a) eqn:Ep; simpl.
+    + destruct rest as [|v vr]; apply ret_ok in H1 as [<- <-];
+        apply IH in H2 as (vs & Hs & ->); exists vs; (split; [assumption|]);
+        now rewrite <- app_assoc.
+    + apply bind_ok in H1 as (v & w2 & Hv & Hr). apply ret_ok in Hr as [<- <-].
+      apply IH in H2 as (vs & Hs & ->). exists (v :: vs). split; [econstructor; eauto|].
+      now rewrite <- app_assoc.
+Qed.
+
+(** C12_partial, general form: the fixed arguments are evaluated once each, left to right, by the
+    definition-site evaluator; the placeholders receive the call's arguments in order *)
+Theorem C12_partial_steps evn pargs argv w args w' :
+  partial_args evn pargs argv w = Ok args w' ->
+  exists vs, steps evn (fixed_args pargs) w vs w' /\ args = fill_with pargs argv vs.
+Proof.
+  rewrite partial_args_unfold.
+  destruct (foldM (pa_step evn) ([], argv) pargs w) as [st w1|e|s| |q] eqn:E; try discriminate.
+  intro H. inversion H; subst. apply foldM_pa_step in E as (vs & Hs & ->). eauto.
+Qed.
+
+(** C12_partial: with a pure definition-site evaluator the result is the declarative [fill] *)
+Theorem C12_partial evn ev pargs argv w :
+  pure_ev evn ev ->
+  partial_args evn pargs argv w = Ok (fill ev pargs argv) w.
+Proof.
+  intro P. rewrite partial_args_unfold.
+  assert (G : forall pargs acc rest, exists rest',
+             foldM (pa_step evn) (acc, rest) pargs w = Ok (acc ++ fill ev pargs rest, rest') w).
+  { clear pargs argv. induction pargs as [|a r IH]; intros acc rest.
+    - exists rest. simpl. now rewrite app_nil_r.
+    - rewrite foldM_cons, bind_unfold. unfold pa_step at 1. destruct (is_placeholder a) eqn:Ep.
+      + destruct rest as [|v vr]; unfold ret at 1.
+        * destruct (IH (acc ++ [None]) []) as (rest' & ->). exists rest'. cbn [fill]. now rewrite Ep, <- app_assoc.
+        * destruct (IH (acc ++ [v]) vr) as (rest' & ->). exists rest'. cbn [fill]. now rewrite Ep, <- app_assoc.
+      + rewrite bind_unfold, P. unfold ret at 1.
+        destruct (IH (acc ++ [ev a]) rest) as (rest' & ->). exists rest'. cbn [fill]. now rewrite Ep, <- app_assoc. }
+  destruct (G pargs [] argv) as (rest' & ->). reflexivity.
+Qed.
+
+Theorem partial_args_length evn pargs argv w args w' :
+  partial_args evn pargs argv w = Ok args w' -> List.length args = List.length pargs.
+Proof.
+  rewrite partial_args_unfold.
+  destruct (foldM (pa_step evn) ([], argv) pargs w) as [st w1|e|s| |q] eqn:E; try discriminate.
+  intro H. inversion H; subst. clear H.
+  assert (G : forall pargs acc rest w st w',
+             foldM (pa_step evn) (acc, rest) pargs w = Ok st w' ->
+             List.length (fst st) = List.length acc + List.length pargs).
+  { clear. induction pargs as [|a r IH]; intros acc rest w st w' H.
+    - apply ret_ok in H as [<- <-]. simpl. lia.
+    - rewrite foldM_cons in H. apply bind_ok in H as (st1 & w1 & H1 & H2).
+      unfold pa_step in H1. destruct (is_placeholder a).
+      + destruct rest as [|v vr]; apply ret_ok in H1 as [<- <-]; apply IH in H2; rewrite H2, app_length; simpl; lia.
+      + apply bind_ok in H1 as (v & w2 & Hv & Hr). apply ret_ok in Hr as [<- <-].
+        apply IH in H2. rewrite H2, app_length. simpl. lia. }
+  apply G in E. simpl in E. exact E.
+Qed.
+
+(** placeholders in order: the i-th placeholder receives the i-th call argument *)
+Example fill_example :
+  fill (fun _ => Some VNull) [NPlaceholder; NNull; NPlaceholder; NPlaceholder]
+       [Some (VBool true); Some (VBool false)] =
+  [Some (VBool true); Some VNull; Some (VBool false); None].
+Proof. reflexivity. Qed.
+
+Example fill_surplus :
+  fill (fun _ => Some VNull) [NNull; NPlaceholder] [Some (VBool true); Some (VBool false)] =
+  [Some VNull; Some (VBool true)].
+Proof. reflexivity. Qed.
+
+Print Assumptions C12_partial.
+Print Assumptions C12_partial_steps.
+Print Assumptions partial_args_length.
+(* ================================================================================== *)
+(** * 3. Frames: lexical scope chains *)
+
+(** ** [list_update] *)
+Lemma list_update_length {A} n (f : A -> A) l : List.length (list_update n f l) = List.length l.
+Proof. revert n. induction l as [|a r IH]; intros [|n]; simpl; auto. Qed.
+
+Lemma nth_error_list_update {A} n (f : A -> A) l i :
+  nth_error (list_update n f l) i = if i =? n then option_map f (nth_error l i) else nth_error l i.
+Proof.
+  revert n i. induction l as [|a r IH]; intros [|n] [|i]; simpl; try reflexivity.
+  - now destruct (i =? n).
+  - apply IH.
+Qed.
+
+Lemma list_update_twice {A} n (f g : A -> A) l :
+  list_update n f (list_update n g l) = list_update n (fun x => f (g x)) l.
+Proof. revert n. induction l as [|a r IH]; intros [|n]; simpl; try reflexivity. now rewrite IH. Qed.
+
+Lemma list_update_ext {A} n (f g : A -> A) l : (forall x, f x = g x) -> list_update n f l = list_update n g l.
+Proof. intro H. revert n. induction l as [|a r IH]; intros [|n]; simpl; try reflexivity; now rewrite ?H, ?IH. Qed.
+
+(** ** equations for the three frame operations *)
+Lemma lookup_var_eq env x w : lookup_var env x w = Ok (visible w env x) w.
+Proof. reflexivity. Qed.
+
+Lemma new_frame_eq parent w :
+  new_frame parent w = Ok (List.length (frames w)) (mkWorld (frames w ++ [mkFrame parent []])).
+Proof. reflexivity. Qed.
+
+Definition set_sym (x : string) (v : ovalue) (fr : frame) : frame :=
+  mkFrame (fparent fr) (assoc_set x v (fsyms fr)).
+
+Lemma bind_var_eq env x v w :
+  bind_var env x v w = Ok tt (mkWorld (list_update env (set_sym x v) (frames w))).
+Proof. reflexivity. Qed.
+
+(** ** well-founded scope chains *)
+Lemma wf_frames_new fs parent :
+  wf_frames fs -> (forall p, parent = Some p -> p < List.length fs) ->
+  wf_frames (fs ++ [mkFrame parent []]).
+Proof.
+  intros W HP i fr p Hn Hp. destruct (Nat.lt_ge_cases i (List.length fs)) as [L|L].
+  - rewrite nth_error_app1 in Hn by assumption. eapply W; eauto.
+  - rewrite nth_error_app2 in Hn by assumption.
+    destruct (i - List.length fs) as [|d] eqn:Ed; simpl in Hn; [|destruct d; discriminate].
+    inversion Hn; subst fr. simpl in Hp. apply HP in Hp. lia.
+Qed.
+
+Lemma wf_frames_update fs env (g : frame -> frame) :
+  (forall fr, fparent (g fr) = fparent fr) -> wf_frames fs -> wf_frames (list_update env g fs).
+Proof.
+  intros Hg W i fr p Hn Hp. rewrite nth_error_list_update in Hn.
+  destruct (i =? env).
+  - destruct (nth_error fs i) as [fr0|] eqn:E; simpl in Hn; [|discriminate].
+    inversion Hn; subst fr. rewrite Hg in Hp. eapply W; eauto.
+  - eapply W; eauto.
+Qed.
+
+Lemma wf_world_nil : wf_world (mkWorld []).
+Proof. intros i fr p H. destruct i; discriminate. Qed.
+
+(** the scope chain of a frame only contains that frame and older ones *)
+Lemma chain_le fs : wf_frames fs -> forall f env i, In i (chain f fs env) -> i <= env.
+Proof.
+  intro W. induction f as [|f IH]; intros env i H; simpl in H; [contradiction|].
+  destruct (nth_error fs env) as [fr|] eqn:E; [|contradiction].
+  destruct H as [<-|H]; [lia|].
+  destruct (fparent fr) as [p|] eqn:Ep; [|contradiction].
+  apply IH in H. pose proof (W _ _ _ E Ep). lia.
+Qed.
+
+(** any fuel above the frame index gives the same lookup *)
+Lemma lookup_fuel_enough fs x : wf_frames fs -> forall f1 f2 env,
+  env < f1 -> env < f2 -> lookup_fuel f1 fs env x = lookup_fuel f2 fs env x.
+Proof.
+  intro W. induction f1 as [|f1 IH]; intros f2 env L1 L2; [lia|].
+  destruct f2 as [|f2]; [lia|]. simpl.
+  destruct (nth_error fs env) as [fr|] eqn:E; [|reflexivity].
+  destruct (assoc_get x (fsyms fr)); [reflexivity|].
+  destruct (fparent fr) as [p|] eqn:Ep; [|reflexivity].
+  pose proof (W _ _ _ E Ep). apply IH; lia.
+Qed.
+
+Lemma lookup_fuel_out fs x f env : List.length fs <= env -> lookup_fuel f fs env x = None.
+Proof.
+  intro L. destruct f; [reflexivity|]. simpl.
+  assert (E : nth_error fs env = None) by (now apply nth_error_None). now rewrite E.
+Qed.
+
+Lemma visible_fuel w env x f : wf_world w -> env < f -> lookup_fuel f (frames w) env x = visible w env x.
+Proof.
+  intros W L. unfold visible. destruct (Nat.lt_ge_cases env (List.length (frames w))) as [H|H].
+  - apply lookup_fuel_enough; [assumption|lia|lia].
+  - now rewrite !lookup_fuel_out.
+Qed.
+
+(** one step of lookup: the frame's own binding, else the parent's view *)
+Theorem visible_step w env x fr :
+  wf_world w -> nth_error (frames w) env = Some fr ->
+  visible w env x = match assoc_get x (fsyms fr) with
+                    | Some v => Some v
+                    | None => match fparent fr with Some p => visible w p x | None => None end
+                    end.
+Proof.
+  intros W E. unfold visible at 1. simpl. rewrite E.
+  destruct (assoc_get x (fsyms fr)); [reflexivity|].
+  destruct (fparent fr) as [p|] eqn:Ep; [|reflexivity].
+  pose proof (W _ _ _ E Ep). assert (env < List.length (frames w)) by (apply nth_error_Some; congruence).
+  apply visible_fuel; [assumption|lia].
+Qed.
+
+(** ** [new_frame] *)
+Lemma lookup_fuel_app fs l x : wf_frames fs -> forall f env,
+  env < List.length fs -> lookup_fuel f (fs ++ l) env x = lookup_fuel f fs env x.
+Proof.
+  intro W. induction f as [|f IH]; intros env L; [reflexivity|]. simpl.
+  rewrite nth_error_app1 by assumption.
+  destruct (nth_error fs env) as [fr|] eqn:E; [|reflexivity].
+  destruct (assoc_get x (fsyms fr)); [reflexivity|].
+  destruct (fparent fr) as [p|] eqn:Ep; [|reflexivity].
+  pose proof (W _ _ _ E Ep). apply IH. lia.
+Qed.
+
+(** a new frame gets a fresh id, leaves every existing frame and every existing view
+    unchanged, and sees exactly what its parent sees *)
+Theorem lookup_var_new_frame parent w id w' :
+  wf_world w -> (forall p, parent = Some p -> p < List.length (frames w)) ->
+  new_frame parent w = Ok id w' ->
+  id = List.length (frames w) /\
+  List.length (frames w') = S id /\
+  wf_world w' /\
+  (forall env, env < id -> nth_error (frames w') env = nth_error (frames w) env) /\
+  nth_error (frames w') id = Some (mkFrame parent []) /\
+  (forall env x, env < id -> visible w' env x = visible w env x) /\
+  (forall x, visible w' id x = match parent with Some p => visible w p x | None => None end).
+Proof.
+  intros W HP H. rewrite new_frame_eq in H. inversion H; subst id w'. clear H. simpl.
+  assert (W' : wf_world (mkWorld (frames w ++ [mkFrame parent []]))) by (now apply wf_frames_new).
+  assert (Hold : forall env x, env < List.length (frames w) ->
+            visible (mkWorld (frames w ++ [mkFrame parent []])) env x = visible w env x).
+  { intros env x L. unfold visible at 1. cbn [frames]. rewrite lookup_fuel_app by assumption.
+    apply visible_fuel; [assumption|]. rewrite app_length. simpl. lia. }
+  split; [reflexivity|]. split; [rewrite app_length; simpl; lia|]. split; [assumption|].
+  split; [intros env L; now apply nth_error_app1|].
+  assert (Hn : nth_error (frames w ++ [mkFrame parent []]) (List.length (frames w)) = Some (mkFrame parent []))
+    by (rewrite nth_error_app2, Nat.sub_diag by lia; reflexivity).
+  split; [assumption|]. split; [assumption|].
+  intro x. rewrite (visible_step _ _ x _ W' Hn). simpl.
+  destruct parent as [p|]; [|reflexivity]. apply Hold. now apply HP.
+Qed.
+
+(** ** [bind_var] *)
+Lemma bind_var_frames env x v w w' :
+  bind_var env x v w = Ok tt w' -> frames w' = list_update env (set_sym x v) (frames w).
+Proof. rewrite bind_var_eq. intro H. now inversion H. Qed.
+
+Lemma bind_var_wf env x v w w' : wf_world w -> bind_var env x v w = Ok tt w' -> wf_world w'.
+Proof.
+  intros W H. apply bind_var_frames in H. unfold wf_world. rewrite H.
+  apply wf_frames_update; [reflexivity|assumption].
+Qed.
+
+Lemma bind_var_length env x v w w' :
+  bind_var env x v w = Ok tt w' -> List.length (frames w') = List.length (frames w).
+Proof. intro H. apply bind_var_frames in H. rewrite H. apply list_update_length. Qed.
+
+(** after binding, the frame sees the new value *)
+Theorem bind_var_lookup_same env x v w w' :
+  env < List.length (frames w) -> bind_var env x v w = Ok tt w' -> visible w' env x = Some v.
+Proof.
+  intros L H. apply bind_var_frames in H. unfold visible. rewrite H. simpl.
+  rewrite nth_error_list_update, Nat.eqb_refl.
+  destruct (nth_error (frames w) env) as [fr|] eqn:E.
+  - simpl. now rewrite assoc_get_set, seqb_refl.
+  - apply nth_error_None in E. lia.
+Qed.
+
+(** every other name is seen as before, from every frame *)
+Theorem bind_var_other_name env x v w w' e y :
+  y <> x -> bind_var env x v w = Ok tt w' -> visible w' e y = visible w e y.
+Proof.
+  intros N H. pose proof (bind_var_length _ _ _ _ _ H) as HL. apply bind_var_frames in H.
+  unfold visible. rewrite HL, H. generalize (S (List.length (frames w))). intro f. revert e.
+  induction f as [|f IH]; intro e; [reflexivity|]. simpl.
+  rewrite nth_error_list_update. destruct (e =? env) eqn:Ee.
+  - destruct (nth_error (frames w) e) as [fr|]; simpl; [|reflexivity].
+    rewrite assoc_get_set, (proj2 (seqb_neq _ _) N).
+    destruct (assoc_get y (fsyms fr)); [reflexivity|]. destruct (fparent fr); [apply IH|reflexivity].
+  - destruct (nth_error (frames w) e) as [fr|]; [|reflexivity].
+    destruct (assoc_get y (fsyms fr)); [reflexivity|]. destruct (fparent fr); [apply IH|reflexivity].
+Qed.
+
+(** a frame whose scope chain does not contain [env] sees everything as before *)
+Lemma lookup_fuel_update_avoid fs env g y : forall f e,
+  ~ In env (chain f fs e) ->
+  lookup_fuel f (list_update env g fs) e y = lookup_fuel f fs e y.
+Proof.
+  induction f as [|f IH]; intros e NI; [reflexivity|]. simpl in *.
+  rewrite nth_error_list_update.
+  destruct (nth_error fs e) as [fr|] eqn:E.
+  - destruct (e =? env) eqn:Ee.
+    + apply Nat.eqb_eq in Ee. exfalso. apply NI. now left.
+    + destruct (assoc_get y (fsyms fr)); [reflexivity|].
+      destruct (fparent fr) as [p|]; [|reflexivity]. apply IH. intro I. apply NI. now right.
+  - now destruct (e =? env).
+Qed.
+
+Theorem bind_var_other_chain env x v w w' e y :
+  ~ In env (chain (S (List.length (frames w))) (frames w) e) ->
+  bind_var env x v w = Ok tt w' -> visible w' e y = visible w e y.
+Proof.
+  intros NI H. pose proof (bind_var_length _ _ _ _ _ H) as HL. apply bind_var_frames in H.
+  unfold visible. rewrite HL, H. now apply lookup_fuel_update_avoid.
+Qed.
+
+(** in particular a binding made in a frame is invisible from every older frame: a child
+    never alters what its parent (or any enclosing scope) sees *)
+Theorem bind_var_other_frame env x v w w' e y :
+  wf_world w -> e < env -> bind_var env x v w = Ok tt w' -> visible w' e y = visible w e y.
+Proof.
+  intros W L H. eapply bind_var_other_chain; [|exact H].
+  intro I. apply (chain_le _ W) in I. lia.
+Qed.
+
+(** only frame [env] changes *)
+Theorem bind_var_frames_other env x v w w' e :
+  e <> env -> bind_var env x v w = Ok tt w' -> nth_error (frames w') e = nth_error (frames w) e.
+Proof.
+  intros N H. apply bind_var_frames in H. rewrite H, nth_error_list_update.
+  apply Nat.eqb_neq in N. now rewrite N.
+Qed.
+
+(** shadowing: a child frame binding x sees its own x and, for every other name, what the
+    parent sees; the parent's view is untouched *)
+Theorem lookup_shadow env x v w c w1 w2 :
+  wf_world w -> env < List.length (frames w) ->
+  new_frame (Some env) w = Ok c w1 -> bind_var c x v w1 = Ok tt w2 ->
+  wf_world w2 /\
+  visible w2 c x = Some v /\
+  (forall y, y <> x -> visible w2 c y = visible w env y) /\
+  (forall e y, e < c -> visible w2 e y = visible w e y).
+Proof.
+  intros W L Hn Hb.
+  destruct (lookup_var_new_frame (Some env) w c w1 W) as (Hc & Hlen & W1 & _ & _ & Hold & Hnew); auto.
+  { intros p E. inversion E. now subst. }
+  split; [eapply bind_var_wf; eauto|]. split.
+  - eapply bind_var_lookup_same; [|exact Hb]. lia.
+  - split.
+    + intros y N. rewrite (bind_var_other_name _ _ _ _ _ c y N Hb). apply Hnew.
+    + intros e y Le. rewrite (bind_var_other_frame _ _ _ _ _ e y W1 Le Hb). now apply Hold.
+Qed.
+
+Print Assumptions lookup_var_new_frame.
+Print Assumptions bind_var_lookup_same.
+Print Assumptions bind_var_other_name.
+Print Assumptions bind_var_other_frame.
+Print Assumptions lookup_shadow.
+(** ** [bind_params] *)
+Lemma list_update_id {A} n (f : A -> A) l : (forall x, f x = x) -> list_update n f l = l.
+Proof. intro H. revert n. induction l as [|a r IH]; intros [|n]; simpl; try reflexivity; now rewrite ?H, ?IH. Qed.
+
+Definition set_params (names : list string) (vals : list ovalue) (fr : frame) : frame :=
+  mkFrame (fparent fr) (set_all (param_vals names vals) (fsyms fr)).
+
+(** the parameters are bound, in order, in frame [env] only: missing arguments to "no value",
+    surplus arguments ignored *)
+Theorem bind_params_spec env names : forall vals w,
+  bind_params env names vals w =
+  Ok tt (mkWorld (list_update env (set_params names vals) (frames w))).
+Proof.
+  induction names as [|x r IH]; intros vals w.
+  - simpl. unfold ret. f_equal. rewrite list_update_id; [now destruct w|].
+    intros [p s]. reflexivity.
+  - cbn [bind_params].
+    assert (E : forall v vr, bind (bind_var env x v) (fun _ => bind_params env r vr) w =
+                             Ok tt (mkWorld (list_update env (set_params (x :: r) (v :: vr)) (frames w)))).
+    { intros v vr. rewrite bind_unfold, bind_var_eq, IH. cbn [frames].
+      rewrite list_update_twice. reflexivity. }
+    destruct vals as [|v vr].
+    + rewrite E. reflexivity.
+    + apply E.
+Qed.
+
+Lemma param_vals_names names : forall vals, map fst (param_vals names vals) = names.
+Proof. induction names as [|x r IH]; intros [|v vr]; simpl; now rewrite ?IH. Qed.
+
+Lemma param_vals_nth names : forall vals i x,
+  nth_error names i = Some x -> In (x, nth i vals None) (param_vals names vals).
+Proof.
+  induction names as [|y r IH]; intros vals i x H; [destruct i; discriminate|].
+  destruct i as [|i]; simpl in H.
+  - inversion H; subst. destruct vals; now left.
+  - destruct vals as [|v vr]; simpl; right.
+    + specialize (IH [] i x H). now destruct i.
+    + now apply IH.
+Qed.
+
+Lemma assoc_get_set_all x bs : forall syms,
+  assoc_get x (set_all bs syms) =
+  match assoc_get x (rev bs) with Some v => Some v | None => assoc_get x syms end.
+Proof.
+  unfold set_all. induction bs as [|[k v] r IH]; intro syms; simpl; [reflexivity|].
+  rewrite IH, assoc_get_app. destruct (assoc_get x (rev r)); [reflexivity|].
+  simpl. rewrite assoc_get_set. destruct (seqb x k); reflexivity.
+Qed.
+
+(** after binding distinct parameter names, the i-th name sees the i-th argument ("no value"
+    when the call supplied fewer) *)
+Theorem bind_params_lookup env names vals w w' i x :
+  NoDup names -> env < List.length (frames w) ->
+  bind_params env names vals w = Ok tt w' ->
+  nth_error names i = Some x ->
+  visible w' env x = Some (nth i vals None).
+Proof.
+  intros ND L H Hn. rewrite bind_params_spec in H. inversion H; subst w'. clear H.
+  unfold visible. cbn [frames]. rewrite list_update_length. simpl.
+  rewrite nth_error_list_update, Nat.eqb_refl.
+  destruct (nth_error (frames w) env) as [fr|] eqn:E; [|apply nth_error_None in E; lia].
+  simpl. rewrite assoc_get_set_all.
+  assert (G : assoc_get x (rev (param_vals names vals)) = Some (nth i vals None)).
+  { apply In_assoc_get.
+    - rewrite map_rev, param_vals_names. now apply NoDup_rev.
+    - apply in_rev. rewrite rev_involutive. now apply param_vals_nth. }
+  now rewrite G.
+Qed.
+
+(** names that are not parameters, and all other frames, are untouched *)
+Theorem bind_params_other env names vals w w' :
+  bind_params env names vals w = Ok tt w' ->
+  List.length (frames w') = List.length (frames w) /\
+  (forall e, e <> env -> nth_error (frames w') e = nth_error (frames w) e) /\
+  (wf_world w -> wf_world w') /\
+  (wf_world w -> forall e y, e < env -> visible w' e y = visible w e y).
+Proof.
+  intro H. rewrite bind_params_spec in H. inversion H; subst w'. clear H. cbn [frames].
+  split; [apply list_update_length|]. split.
+  - intros e N. rewrite nth_error_list_update. apply Nat.eqb_neq in N. now rewrite N.
+  - split.
+    + intro W. apply wf_frames_update; [reflexivity|assumption].
+    + intros W e y L. unfold visible. cbn [frames]. rewrite list_update_length.
+      apply lookup_fuel_update_avoid. intro I. apply (chain_le _ W) in I. lia.
+Qed.
+
+Example bind_params_example :
+  param_vals ["a"; "b"; "c"] [Some VNull; Some (VBool true)] = [("a", Some VNull); ("b", Some (VBool true)); ("c", None)] /\
+  param_vals ["a"] [Some VNull; Some (VBool true)] = [("a", Some VNull)].
+Proof. split; reflexivity. Qed.
+
+Print Assumptions bind_params_spec.
+Print Assumptions bind_params_lookup.
+(* ================================================================================== *)
+(** * 4. The evaluator cases: blocks, assignment, variables, lambdas, calls, chaining *)
+
+Definition is_call_node (n : node) : bool := match n with NCall _ _ => true | _ => false end.
+Definition is_fun (v : ovalue) : bool := match v with Some (VFun _) => true | _ => false end.
+
+Section EvalEquations.
+  Variable fmt_num : f64 -> string.
+  Variable regex_find : string -> string -> option (list (list (Z * Z))).
+  Variable pow_fn : f64 -> f64 -> option f64.
+  Variable xlib : string -> list carg -> option (lres ovalue).
+
+  Notation eval' := (eval fmt_num regex_find pow_fn xlib).
+  Notation eval_call' := (eval_call fmt_num regex_find pow_fn xlib).
+  Notation call' := (call fmt_num regex_find pow_fn xlib).
+
+  (** ** equations (each is the corresponding case of the evaluator, by computation) *)
+  Lemma eval_block_eq f exprs input env :
+    eval' (S f) (NBlock exprs) input env =
+    (env' <- new_frame (Some env) ;; foldM (fun _ e => eval' f e input env') None exprs).
+  Proof. reflexivity. Qed.
+
+  Lemma eval_assignment_eq f x vn input env :
+    eval' (S f) (NAssignment x vn) input env =
+    (v <- eval' f vn input env ;; _ <- bind_var env x v ;; ret v).
+  Proof. reflexivity. Qed.
+
+  Lemma eval_variable_eq f x input env :
+    eval' (S f) (NVariable x) input env =
+    if seqb x "" then ret input
+    else r <- lookup_var env x ;;
+         ret (match r with
+              | Some v => v
+              | None => match builtin_sig x with Some _ => Some (VFun (CBuiltin x)) | None => None end
+              end).
+  Proof. reflexivity. Qed.
+
+  (** a lambda captures the frame and the context item of its definition site *)
+  Lemma eval_lambda_eq f ps body sh input env :
+    eval' (S f) (NLambda ps body sh) input env = ret (Some (VFun (CLambda ps None body env input))).
+  Proof. reflexivity. Qed.
+
+  Lemma eval_typed_lambda_eq f ps body sh sg input env :
+    eval' (S f) (NTypedLambda ps body sh sg) input env =
+    ret (Some (VFun (CLambda ps (Some sg) body env input))).
+  Proof. reflexivity. Qed.
+
+  (** so does a partial application *)
+  Lemma eval_partial_eq f fnode args input env :
+    eval' (S f) (NPartial fnode args) input env =
+    (v <- eval' f fnode input env ;;
+     match v with
+     | Some (VFun c) => ret (Some (VFun (CPartial (callable_name c ++ "_partial")%string c args env input)))
+     | _ => fail (EEval ErrNonCallablePartial)
+     end).
+  Proof. reflexivity. Qed.
+
+  Lemma eval_call_node_eq f fnode args input env :
+    eval' (S f) (NCall fnode args) input env = eval_call' f fnode args input env.
+  Proof. reflexivity. Qed.
+
+  Lemma eval_call_eq f fnode args input env :
+    eval_call' (S f) fnode args input env =
+    (v <- eval' f fnode input env ;;
+     match v with
+     | Some (VFun c) =>
+         argv <- mapM (fun a => eval' f a input env) args ;;
+         call' f c (match fnode with NVariable name => Some name | _ => None end) input argv
+     | _ => fail (EEval ErrNonCallable)
+     end).
+  Proof. reflexivity. Qed.
+
+  (** ** C12_chain *)
+
+  (** v ~> f(a) IS f(v, a) *)
+  Theorem C12_chain_call f lhs fn args input env :
+    eval' (S f) (NApply lhs (NCall fn args)) input env = eval_call' f fn (lhs :: args) input env.
+  Proof. reflexivity. Qed.
+
+  Corollary C12_chain_call_node f lhs fn args input env :
+    eval' (S f) (NApply lhs (NCall fn args)) input env = eval' (S f) (NCall fn (lhs :: args)) input env.
+  Proof. reflexivity. Qed.
+
+  (** the other right-hand sides *)
+  Lemma eval_apply_eq f lhs rhs input env :
+    is_call_node rhs = false ->
+    eval' (S f) (NApply lhs rhs) input env =
+    (a <- eval' f lhs input env ;;
+     b <- eval' f rhs input env ;;
+     match b with
+     | Some (VFun f2) =>
+         match a with
+         | Some (VFun f1) => ret (Some (VFun (CChain f1 f2)))
+         | _ => call' f f2 None None [a]
+         end
+     | _ => fail (EEval ErrNonCallableApply)
+     end).
+  Proof. intro H. destruct rhs; try reflexivity. discriminate. Qed.
+
+  (** f ~> g is the composition value *)
+  Theorem C12_chain_compose f lhs rhs input env w f1 w1 f2 w2 :
+    is_call_node rhs = false ->
+    eval' f lhs input env w = Ok (Some (VFun f1)) w1 ->
+    eval' f rhs input env w1 = Ok (Some (VFun f2)) w2 ->
+    eval' (S f) (NApply lhs rhs) input env w = Ok (Some (VFun (CChain f1 f2))) w2.
+  Proof.
+    intros H E1 E2. rewrite eval_apply_eq by assumption.
+    rewrite bind_unfold, E1, bind_unfold, E2. reflexivity.
+  Qed.
+
+  (** v ~> g for a non-function v is g(v) *)
+  Theorem C12_chain_value f lhs rhs input env w a w1 f2 w2 :
+    is_call_node rhs = false ->
+    eval' f lhs input env w = Ok a w1 -> is_fun a = false ->
+    eval' f rhs input env w1 = Ok (Some (VFun f2)) w2 ->
+    eval' (S f) (NApply lhs rhs) input env w = call' f f2 None None [a] w2.
+  Proof.
+    intros H E1 Na E2. rewrite eval_apply_eq by assumption.
+    rewrite bind_unfold, E1, bind_unfold, E2.
+    destruct a as [[| | | | | |c]|]; try reflexivity. discriminate.
+  Qed.
+
+  (** a right-hand side that is not a function *)
+  Theorem C12_chain_noncallable f lhs rhs input env w a w1 b w2 :
+    is_call_node rhs = false ->
+    eval' f lhs input env w = Ok a w1 ->
+    eval' f rhs input env w1 = Ok b w2 -> is_fun b = false ->
+    eval' (S f) (NApply lhs rhs) input env w = Err (EEval ErrNonCallableApply).
+  Proof.
+    intros H E1 E2 Nb. rewrite eval_apply_eq by assumption.
+    rewrite bind_unfold, E1, bind_unfold, E2.
+    destruct b as [[| | | | | |c]|]; try reflexivity. discriminate.
+  Qed.
+
+  (** (f ~> g)(x) = g(f(x)) *)
+  Theorem C12_chain_apply f f1 f2 nm ctx argv :
+    call' (S f) (CChain f1 f2) nm ctx argv =
+    (r <- call' f f1 None None [match argv with x :: _ => x | [] => None end] ;;
+     call' f f2 None None [r]).
+  Proof. reflexivity. Qed.
+
+  Corollary C12_chain_apply_one f f1 f2 nm ctx x w r w1 :
+    call' f f1 None None [x] w = Ok r w1 ->
+    call' (S f) (CChain f1 f2) nm ctx [x] w = call' f f2 None None [r] w1.
+  Proof.
+    intro E.
+    change (call' (S f) (CChain f1 f2) nm ctx [x] w)
+      with (bind (call' f f1 None None [x]) (fun r => call' f f2 None None [r]) w).
+    rewrite bind_unfold, E. reflexivity.
+  Qed.
+
+  (** calling a non-function *)
+  Theorem C12_noncallable f fnode args input env w v w1 :
+    eval' f fnode input env w = Ok v w1 -> is_fun v = false ->
+    eval_call' (S f) fnode args input env w = Err (EEval ErrNonCallable) /\
+    eval' (S (S f)) (NCall fnode args) input env w = Err (EEval ErrNonCallable).
+  Proof.
+    intros E N. rewrite eval_call_node_eq, eval_call_eq, bind_unfold, E.
+    destruct v as [[| | | | | |c]|]; try (split; reflexivity). discriminate.
+  Qed.
+
+  (** ** C12_closure *)
+
+  (** the body of a lambda runs with the DEFINITION-site context item [lctx] (the call-site
+      context [ctx] is not used) in a fresh child of the DEFINITION-site frame [lenv], the
+      parameters bound there *)
+  Theorem C12_closure f ps body lenv lctx nm ctx argv :
+    call' (S f) (CLambda ps None body lenv lctx) nm ctx argv =
+    (env' <- new_frame (Some lenv) ;;
+     _ <- bind_params env' ps argv ;;
+     eval' f body lctx env').
+  Proof. reflexivity. Qed.
+
+  Theorem C12_closure_typed f ps sg body lenv lctx nm ctx argv :
+    call' (S f) (CLambda ps (Some sg) body lenv lctx) nm ctx argv =
+    (argv' <- lift_pure (lambda_args (S (S f)) sg lctx (match nm with Some x => x | None => "lambda" end) argv) ;;
+     env' <- new_frame (Some lenv) ;;
+     _ <- bind_params env' ps argv' ;;
+     eval' f body lctx env').
+  Proof. reflexivity. Qed.
+
+  (** the call-site context and the caller's name for the function are irrelevant to an untyped lambda *)
+  Corollary C12_closure_ctx_irrelevant f ps body lenv lctx nm1 ctx1 nm2 ctx2 argv :
+    call' (S f) (CLambda ps None body lenv lctx) nm1 ctx1 argv =
+    call' (S f) (CLambda ps None body lenv lctx) nm2 ctx2 argv.
+  Proof. reflexivity. Qed.
+
+  (** a declared signature: the call proceeds exactly when the arguments fit, on the fitted
+      argument list; otherwise it fails with the signature error *)
+  Theorem C12_closure_fits f ps sg body lenv lctx nm ctx argv out w :
+    fuel_ok (S (S f)) sg -> fits sg lctx argv out ->
+    call' (S f) (CLambda ps (Some sg) body lenv lctx) nm ctx argv w =
+    (env' <- new_frame (Some lenv) ;; _ <- bind_params env' ps out ;; eval' f body lctx env') w.
+  Proof.
+    intros F H. rewrite C12_closure_typed, bind_unfold.
+    apply (C12_signature _ _ _ (match nm with Some x => x | None => "lambda" end) _ F) in H.
+    rewrite H. reflexivity.
+  Qed.
+
+  Theorem C12_closure_count_misfit f ps sg body lenv lctx nm ctx argv w :
+    fuel_ok (S (S f)) sg -> count_misfit sg lctx argv ->
+    call' (S f) (CLambda ps (Some sg) body lenv lctx) nm ctx argv w =
+    Err (EArgCount (match nm with Some x => x | None => "lambda" end)).
+  Proof.
+    intros F H. rewrite C12_closure_typed, bind_unfold.
+    assert (E : lambda_args (S (S f)) sg lctx (match nm with Some x => x | None => "lambda" end) argv =
+                inr (EArgCount (match nm with Some x => x | None => "lambda" end)))
+      by (apply C12_signature_count; auto).
+    rewrite E. reflexivity.
+  Qed.
+
+  Theorem C12_closure_type_misfit f ps sg body lenv lctx nm ctx argv i w :
+    fuel_ok (S (S f)) sg -> type_misfit sg lctx argv i ->
+    call' (S f) (CLambda ps (Some sg) body lenv lctx) nm ctx argv w =
+    Err (EArgType (match nm with Some x => x | None => "lambda" end) i).
+  Proof.
+    intros F H. rewrite C12_closure_typed, bind_unfold.
+    assert (E : lambda_args (S (S f)) sg lctx (match nm with Some x => x | None => "lambda" end) argv =
+                inr (EArgType (match nm with Some x => x | None => "lambda" end) i))
+      by (apply C12_signature_type; auto).
+    rewrite E. reflexivity.
+  Qed.
+
+  (** the frame the body runs in: parameters bound (missing = no value, surplus ignored), every
+      other name seen as from the definition frame, all older frames untouched *)
+  Theorem C12_closure_frame f ps body lenv lctx nm ctx argv w :
+    wf_world w -> lenv < List.length (frames w) ->
+    let c := List.length (frames w) in
+    exists w2,
+      call' (S f) (CLambda ps None body lenv lctx) nm ctx argv w = eval' f body lctx c w2 /\
+      wf_world w2 /\ List.length (frames w2) = S c /\
+      (NoDup ps -> forall i x, nth_error ps i = Some x -> visible w2 c x = Some (nth i argv None)) /\
+      (forall y, ~ In y ps -> visible w2 c y = visible w lenv y) /\
+      (forall e y, e < c -> visible w2 e y = visible w e y).
+  Proof.
+    intros W L c.
+    assert (HP : forall p, Some lenv = Some p -> p < List.length (frames w))
+      by (intros p E; inversion E; now subst).
+    destruct (lookup_var_new_frame (Some lenv) w c _ W HP (new_frame_eq (Some lenv) w))
+      as (_ & Hlen & W1 & Hfr & Hnew & Hold & Hsee).
+    set (w1 := mkWorld (frames w ++ [mkFrame (Some lenv) []])) in *.
+    set (w2 := mkWorld (list_update c (set_params ps argv) (frames w1))).
+    assert (Hb : bind_params c ps argv w1 = Ok tt w2) by apply bind_params_spec.
+    destruct (bind_params_other _ _ _ _ _ Hb) as (Hlen2 & Hfr2 & W2 & Hold2).
+    exists w2. split.
+    - rewrite C12_closure, bind_unfold, new_frame_eq. fold c. fold w1.
+      rewrite bind_unfold, Hb. reflexivity.
+    - split; [now apply W2|]. split; [congruence|]. split; [|split].
+      + intros ND i x Hn. eapply bind_params_lookup; eauto. lia.
+      + intros y NI.
+        assert (Hn2 : nth_error (frames w2) c = Some (set_params ps argv (mkFrame (Some lenv) []))).
+        { unfold w2. cbn [frames]. rewrite nth_error_list_update, Nat.eqb_refl, Hnew. reflexivity. }
+        rewrite (visible_step w2 c y _ (W2 W1) Hn2). cbn [set_params fsyms fparent].
+        rewrite assoc_get_set_all.
+        assert (G : assoc_get y (rev (param_vals ps argv)) = None).
+        { apply assoc_get_None. rewrite map_rev, param_vals_names. intro I. apply NI. now apply in_rev. }
+        rewrite G. simpl. rewrite (Hold2 W1 lenv y) by lia. now apply Hold.
+      + intros e y Le. rewrite (Hold2 W1 e y) by lia. now apply Hold.
+  Qed.
+
+  (** ** partial application *)
+  Theorem C12_partial_call f nme fn pargs penv pctx nm ctx argv :
+    call' (S f) (CPartial nme fn pargs penv pctx) nm ctx argv =
+    (args <- partial_args (fun a => eval' f a pctx penv) pargs argv ;;
+     call' f fn None None args).
+  Proof. reflexivity. Qed.
+
+  (** with pure fixed arguments, calling f(..?..) with [argv] is calling f with the placeholders
+      filled left to right *)
+  Theorem C12_partial_call_pure f nme fn pargs penv pctx nm ctx argv ev w :
+    pure_ev (fun a => eval' f a pctx penv) ev ->
+    call' (S f) (CPartial nme fn pargs penv pctx) nm ctx argv w =
+    call' f fn None None (fill ev pargs argv) w.
+  Proof.
+    intro P. rewrite C12_partial_call, bind_unfold, (C12_partial _ ev _ _ _ P). reflexivity.
+  Qed.
+
+  (** ** C12_block_scope *)
+
+  (** a block evaluates its expressions in a fresh child frame of the current one, which sees
+      everything the current frame sees; no existing frame is altered by entering the block *)
+  Theorem C12_block_scope f exprs input env w :
+    wf_world w -> env < List.length (frames w) ->
+    let c := List.length (frames w) in
+    exists w1,
+      eval' (S f) (NBlock exprs) input env w = foldM (fun _ e => eval' f e input c) None exprs w1 /\
+      wf_world w1 /\ List.length (frames w1) = S c /\
+      (forall y, visible w1 c y = visible w env y) /\
+      (forall e y, e < c -> visible w1 e y = visible w e y).
+  Proof.
+    intros W L c.
+    assert (HP : forall p, Some env = Some p -> p < List.length (frames w))
+      by (intros p E; inversion E; now subst).
+    destruct (lookup_var_new_frame (Some env) w c _ W HP (new_frame_eq (Some env) w))
+      as (_ & Hlen & W1 & Hfr & Hnew & Hold & Hsee).
+    eexists. split; [rewrite eval_block_eq, bind_unfold, new_frame_eq; reflexivity|].
+    repeat split; assumption.
+  Qed.
+
+  (** an assignment binds in the current frame only; a later variable reference in that frame (or
+      in a descendant that does not shadow it) sees the value; older frames see nothing of it *)
+  Theorem C12_assignment f x vn input env w v w1 :
+    eval' f vn input env w = Ok v w1 ->
+    env < List.length (frames w1) ->
+    exists w2,
+      eval' (S f) (NAssignment x vn) input env w = Ok v w2 /\
+      visible w2 env x = Some v /\
+      (forall e y, y <> x -> visible w2 e y = visible w1 e y) /\
+      (wf_world w1 -> wf_world w2 /\ forall e y, e < env -> visible w2 e y = visible w1 e y).
+  Proof.
+    intros E L. eexists. split.
+    - rewrite eval_assignment_eq, bind_unfold, E, bind_unfold, bind_var_eq. reflexivity.
+    - pose proof (bind_var_eq env x v w1) as Hb. split; [|split].
+      + eapply bind_var_lookup_same; eauto.
+      + intros e y N. eapply bind_var_other_name; eauto.
+      + intro W. split; [eapply bind_var_wf; eauto|].
+        intros e y Le. eapply bind_var_other_frame; eauto.
+  Qed.
+
+  Theorem C12_variable f x input env w :
+    seqb x "" = false ->
+    eval' (S f) (NVariable x) input env w =
+    Ok (match visible w env x with
+        | Some v => v
+        | None => match builtin_sig x with Some _ => Some (VFun (CBuiltin x)) | None => None end
+        end) w.
+  Proof. intro N. rewrite eval_variable_eq, N. reflexivity. Qed.
+End EvalEquations.
+
+Print Assumptions C12_chain_call.
+Print Assumptions C12_chain_compose.
+Print Assumptions C12_chain_apply.
+Print Assumptions C12_chain_noncallable.
+Print Assumptions C12_noncallable.
+Print Assumptions C12_closure.
+Print Assumptions C12_closure_fits.
+Print Assumptions C12_closure_frame.
+Print Assumptions C12_partial_call_pure.
+Print Assumptions C12_block_scope.
+Print Assumptions C12_assignment.
+(* ================================================================================== *)
+(** * 5. Examples *)
+Module C12Examples.
+  Definition n (z : Z) : value := VNum (f_of_Z z).
+  Definition s (x : string) : value := VStr x.
+
+  (** *** signatures *)
+  (** <s-n?> : context-substituted string, optional number *)
+  Definition sig1 : list param := [Param PT_string OptContextable None; Param PT_number OptOptional None].
+  (** <a<n>s+> : array of numbers (a bare number is wrapped), then one or more strings *)
+  Definition sig2 : list param :=
+    [Param PT_array OptNone (Some [Param PT_number OptNone None]); Param PT_string OptVariadic None].
+  (** <(ns)b> : number-or-string, boolean *)
+  Definition sig3 : list param := [Param (PT_number + PT_string) OptNone None; Param PT_bool OptNone None].
+
+  Lemma fuel5 sg : (forall p, In p sg -> param_depth p < 5) -> fuel_ok 5 sg.
+  Proof. exact (fun H => H). Qed.
+
+  Ltac fuel_tac := apply fuel5; intros p Hp; simpl in Hp;
+                   repeat (destruct Hp as [<-|Hp]; [simpl; lia|]); contradiction.
+
+  Example sig1_ctx : fits sig1 (Some (s "ctx")) [] [Some (s "ctx"); None].
+  Proof. apply (C12_signature 5 sig1 _ "f"); [fuel_tac|reflexivity]. Qed.
+
+  Example sig1_both : fits sig1 (Some (s "ctx")) [Some (s "a"); Some (n 1)] [Some (s "a"); Some (n 1)].
+  Proof. apply (C12_signature 5 sig1 _ "f"); [fuel_tac|reflexivity]. Qed.
+
+  Example sig2_variadic :
+    fits sig2 None [Some (n 7); Some (s "a"); Some (s "b")]
+         [Some (VArr [n 7]); Some (VArr [s "a"; s "b"])].
+  Proof. apply (C12_signature 5 sig2 _ "f"); [fuel_tac|vm_compute; reflexivity]. Qed.
+
+  Example sig2_subtype_error : type_misfit sig2 None [Some (VArr [n 1; s "x"]); Some (s "a")] 1.
+  Proof.
+    apply (C12_signature_type 5 sig2 None "f" _ ltac:(fuel_tac) "f" 1). vm_compute. reflexivity.
+  Qed.
+
+  Example sig3_union : fits sig3 None [Some (s "x"); Some (VBool true)] [Some (s "x"); Some (VBool true)].
+  Proof. apply (C12_signature 5 sig3 _ "f"); [fuel_tac|reflexivity]. Qed.
+
+  Example sig3_count : count_misfit sig3 None [Some (n 1)].
+  Proof. apply (C12_signature_count 5 sig3 None "f" _ ltac:(fuel_tac) "f"). reflexivity. Qed.
+
+  Example sig3_type : type_misfit sig3 None [Some (n 1); Some (n 2)] 2.
+  Proof. apply (C12_signature_type 5 sig3 None "f" _ ltac:(fuel_tac) "f" 2). reflexivity. Qed.
+
+  (** *** whole programs, run through the evaluator (oracles are not consulted) *)
+  Definition o_fmt : f64 -> string := fun _ => "".
+  Definition o_re : string -> string -> option (list (list (Z * Z))) := fun _ _ => None.
+  Definition o_pow : f64 -> f64 -> option f64 := fun _ _ => None.
+  Definition o_lib : string -> list carg -> option (lres ovalue) := fun _ _ => None.
+  Definition run (prog : node) (input : ovalue) : res ovalue :=
+    eval o_fmt o_re o_pow o_lib 60 prog input 0 (mkWorld [mkFrame None []]).
+  Definition result (r : res ovalue) : option (ovalue + err) :=
+    match r with Ok v _ => Some (inl v) | Err e => Some (inr e) | _ => None end.
+
+  Definition v (x : string) : node := NVariable x.
+  Definition num (z : Z) : node := NNumber (f_of_Z z).
+  Definition lam (ps : list string) (b : node) : node := NLambda ps b false.
+
+  (** ( $x := 1; ( $x := 2; $x ); $x ) : the inner block shadows, the outer binding survives *)
+  Example block_shadow :
+    result (run (NBlock [NAssignment "x" (num 1);
+                         NBlock [NAssignment "x" (num 2); v "x"];
+                         v "x"]) None) = Some (inl (Some (n 1))).
+  Proof. vm_compute. reflexivity. Qed.
+
+  (** a block's binding is invisible after the block *)
+  Example block_invisible :
+    result (run (NBlock [NBlock [NAssignment "y" (num 2)]; v "y"]) None) = Some (inl None).
+  Proof. vm_compute. reflexivity. Qed.
+
+  (** ( $f := function($n){ $n = 0 ? "done" : $f($n - 1) }; $f(3) ) : self reference through the
+      variable the function is bound to *)
+  Example recursion :
+    result (run (NBlock [NAssignment "f"
+                           (lam ["n"] (NConditional (NComparison CmpEq (v "n") (num 0)) (NString "done")
+                                         (Some (NCall (v "f") [NNumeric NumSub (v "n") (num 1)]))));
+                         NCall (v "f") [num 3]]) None) = Some (inl (Some (s "done"))).
+  Proof. vm_compute. reflexivity. Qed.
+
+  (** a closure keeps the bindings of its definition site:
+      ( $k := 10; $add := function($a){ $a + $k }; ( $k := 20; $add(1) ) ) = 11 *)
+  Example closure_bindings :
+    result (run (NBlock [NAssignment "k" (num 10);
+                         NAssignment "add" (lam ["a"] (NNumeric NumAdd (v "a") (v "k")));
+                         NBlock [NAssignment "k" (num 20); NCall (v "add") [num 1]]]) None)
+    = Some (inl (Some (n 11))).
+  Proof. vm_compute. reflexivity. Qed.
+
+  (** ... and the context item of its definition site: ( $g := function(){ $ }; "inner".$g() ) on "outer" *)
+  Example closure_context :
+    result (run (NBlock [NAssignment "g" (lam [] (v ""));
+                         NPath [NString "inner"; NCall (v "g") []] false]) (Some (s "outer")))
+    = Some (inl (Some (s "outer"))).
+  Proof. vm_compute. reflexivity. Qed.
+
+  (** missing arguments are "no value", surplus ones ignored *)
+  Example missing_surplus :
+    let f := lam ["a"; "b"] (NArray [v "a"; v "b"]) in
+    result (run (NBlock [NAssignment "f" f; NCall (v "f") [num 1]]) None) = Some (inl (Some (VArr [n 1]))) /\
+    result (run (NBlock [NAssignment "f" f; NCall (v "f") [num 1; num 2; num 3]]) None)
+    = Some (inl (Some (VArr [n 1; n 2]))).
+  Proof. split; vm_compute; reflexivity. Qed.
+
+  Definition sub2 : node := lam ["a"; "b"] (NNumeric NumSub (v "a") (v "b")).
+
+  (** 5 ~> $sub(2) = $sub(5, 2) *)
+  Example chain_call :
+    result (run (NBlock [NAssignment "sub" sub2; NApply (num 5) (NCall (v "sub") [num 2])]) None)
+    = Some (inl (Some (n 3))) /\
+    result (run (NBlock [NAssignment "sub" sub2; NCall (v "sub") [num 5; num 2]]) None)
+    = Some (inl (Some (n 3))).
+  Proof. split; vm_compute; reflexivity. Qed.
+
+  (** ($inc ~> $dbl)(3) = $dbl($inc(3)) = 8 *)
+  Example chain_compose :
+    result (run (NBlock [NAssignment "inc" (lam ["a"] (NNumeric NumAdd (v "a") (num 1)));
+                         NAssignment "dbl" (lam ["a"] (NNumeric NumMul (v "a") (num 2)));
+                         NCall (NApply (v "inc") (v "dbl")) [num 3]]) None)
+    = Some (inl (Some (n 8))).
+  Proof. vm_compute. reflexivity. Qed.
+
+  (** $sub(?, 1)(5) = 4 and $sub(9, ?)(5) = 4 *)
+  Example partial_application :
+    result (run (NBlock [NAssignment "sub" sub2;
+                         NArray [NCall (NPartial (v "sub") [NPlaceholder; num 1]) [num 5];
+                                 NCall (NPartial (v "sub") [num 9; NPlaceholder]) [num 5]]]) None)
+    = Some (inl (Some (VArr [n 4; n 4]))).
+  Proof. vm_compute. reflexivity. Qed.
+
+  Example call_non_function : result (run (NCall (num 3) [num 1]) None) = Some (inr (EEval ErrNonCallable)).
+  Proof. vm_compute. reflexivity. Qed.
+
+  Example apply_non_function : result (run (NApply (num 1) (num 2)) None) = Some (inr (EEval ErrNonCallableApply)).
+  Proof. vm_compute. reflexivity. Qed.
+
+  (** function($a)<n:n>{$a}("x") : argument 1 has the wrong type *)
+  Example typed_lambda_error :
+    result (run (NCall (NTypedLambda ["a"] (v "a") false [Param PT_number OptNone None]) [NString "x"]) None)
+    = Some (inr (EArgType "lambda" 1)).
+  Proof. vm_compute. reflexivity. Qed.
+
+  (** frames: a concrete world, a child frame, shadowing *)
+  Example frames_example :
+    let w := mkWorld [mkFrame None [("x", Some (n 1)); ("y", Some (n 5))]] in
+    exists c w1 w2, new_frame (Some 0) w = Ok c w1 /\ bind_var c "x" (Some (n 2)) w1 = Ok tt w2 /\
+                    visible w2 c "x" = Some (Some (n 2)) /\ visible w2 c "y" = Some (Some (n 5)) /\
+                    visible w2 0 "x" = Some (Some (n 1)) /\ wf_world w2.
+  Proof.
+    do 3 eexists. split; [reflexivity|]. split; [reflexivity|].
+    split; [reflexivity|]. split; [reflexivity|]. split; [reflexivity|].
+    intros i fr p Hn Hp. destruct i as [|[|i]]; simpl in Hn.
+    - inversion Hn; subst. discriminate.
+    - inversion Hn; subst. simpl in Hp. inversion Hp. lia.
+    - destruct i; discriminate.
+  Qed.
+End C12Examples.
